@@ -176,6 +176,266 @@ theorem takeCPUs_eq (ctx : PickCtx) (full : Bool) (avail : List Nat) (allocated 
           | some res => some res
           | none => phaseSingles ctx a) := by
   unfold takeCPUs phaseFull phaseSpread phaseSingles
+  simp only []
   rfl
+
+/-- invariant carried through the phases. -/
+def GoodA (avail : List Nat) (n : Int) (a : Acc) : Prop := Good avail n a ∧ AllocOK avail a
+
+theorem prefix_exact (ctx : PickCtx) {avail : List Nat} {n : Int} {a : Acc} (h : GoodA avail n a)
+    {l : List Nat} (hl : FromInfos a.alloc l) (hfit : (l.length : Int) ≥ a.need) :
+    Exact avail n (a.take ctx (l.take a.need.toNat)).result :=
+  take_prefix_exact ctx h.1 l (listOK_of_from h.2 hl) hfit
+
+theorem prefix_spread_exact (ctx : PickCtx) {avail : List Nat} {n : Int} {a : Acc} (h : GoodA avail n a)
+    {l : List Nat} (hl : FromInfos a.alloc l) (hfit : (l.length : Int) ≥ a.need) :
+    Exact avail n (a.take ctx ((spreadCPUs ctx l).take a.need.toNat)).result :=
+  take_prefix_exact ctx h.1 _ (listOK_perm (spreadCPUs_perm ctx l) (listOK_of_from h.2 hl))
+    (by rw [(spreadCPUs_perm ctx l).length_eq]; exact hfit)
+
+/-- the FullPCPUs branch: a returned list meets the contract; the accumulator handed on keeps the invariant. -/
+theorem phaseFull_ok (ctx : PickCtx) {avail : List Nat} {n : Int} {a : Acc} (h : GoodA avail n a) :
+    (∀ res, (phaseFull ctx a).1 = some res → Exact avail n res) ∧ GoodA avail n (phaseFull ctx a).2 := by
+  unfold phaseFull
+  simp only []
+  split
+  · rename_i l hfit1
+    refine ⟨fun res hres => ?_, h⟩
+    cases hres
+    split at hfit1
+    · have := firstFit2_some hfit1
+      rcases this.1 with hm | hm
+      · exact prefix_exact ctx h ((freeCoresIn_ok ctx a h.2.nodup true true true).1 l hm) this.2
+      · exact prefix_exact ctx h ((freeCoresIn_ok ctx a h.2.nodup true true false).1 l hm) this.2
+    · cases hfit1
+  · split
+    · rename_i l hfit2
+      refine ⟨fun res hres => ?_, h⟩
+      cases hres
+      split at hfit2
+      · have := firstFit_some hfit2
+        exact prefix_exact ctx h ((freeCoresIn_ok ctx a h.2.nodup false true false).1 l this.1) this.2
+      · cases hfit2
+    · have hlists : ListsOK avail a (isortLt (fun (x y : List Nat) => decide (x.length > y.length))
+          (freeCoresIn ctx a false true false)) :=
+        listsOK_perm (isortLt_perm _ _) (listsOK_of_from h.2 (freeCoresIn_ok ctx a h.2.nodup false true false))
+      have hw := takeWhole_good ctx _ a [] h.1 (by simpa using hlists)
+      have hwa := takeWhole_allocOK ctx (isortLt (fun (x y : List Nat) => decide (x.length > y.length))
+          (freeCoresIn ctx a false true false)) a [] h.2
+      generalize takeWhole ctx a (isortLt (fun (x y : List Nat) => decide (x.length > y.length))
+          (freeCoresIn ctx a false true false)) [] = r at hw hwa
+      obtain ⟨done, a3, uns⟩ := r
+      simp only [] at hw hwa ⊢
+      split
+      · rename_i hd
+        refine ⟨fun res hres => ?_, hw.1, hwa⟩
+        cases hres
+        exact good_done hw.1 (hw.2.1 hd)
+      · split
+        · have huns : ListsOK avail a3 (isortLt (fun (x y : List Nat) => decide (x.length < y.length)) uns) :=
+            listsOK_perm (isortLt_perm _ _) hw.2.2
+          have hc := takeCores_good ctx _ a3 hw.1 huns
+          have hca := takeCores_allocOK ctx (isortLt (fun (x y : List Nat) => decide (x.length < y.length)) uns) a3 hwa
+          generalize takeCores ctx a3 (isortLt (fun (x y : List Nat) => decide (x.length < y.length)) uns) = r4 at hc hca
+          obtain ⟨done4, a4⟩ := r4
+          simp only [] at hc hca ⊢
+          split
+          · rename_i hd
+            refine ⟨fun res hres => ?_, hc.1, hca⟩
+            cases hres
+            exact good_done hc.1 (hc.2 hd)
+          · exact ⟨fun res hres => (by cases hres), hc.1, hca⟩
+        · exact ⟨fun res hres => (by cases hres), hw.1, hwa⟩
+
+/-- the SpreadByPCPUs branch. -/
+theorem phaseSpread_ok (ctx : PickCtx) {avail : List Nat} {n : Int} {a : Acc} (h : GoodA avail n a) :
+    ∀ res, phaseSpread ctx a = some res → Exact avail n res := by
+  intro res hres
+  unfold phaseSpread at hres
+  simp only [] at hres
+  split at hres
+  · rename_i l hfit1
+    cases hres
+    split at hfit1
+    · have := firstFit2_some hfit1
+      rcases this.1 with hm | hm
+      · exact prefix_spread_exact ctx h (freeCPUsIn_ok ctx a h.2.nodup true true l hm) this.2
+      · exact prefix_spread_exact ctx h (freeCPUsIn_ok ctx a h.2.nodup true false l hm) this.2
+    · cases hfit1
+  · split at hres
+    · rename_i l hfit2
+      cases hres
+      split at hfit2
+      · have := firstFit2_some hfit2
+        rcases this.1 with hm | hm
+        · exact prefix_spread_exact ctx h (freeCPUsIn_ok ctx a h.2.nodup false true l hm) this.2
+        · exact prefix_spread_exact ctx h (freeCPUsIn_ok ctx a h.2.nodup false false l hm) this.2
+      · cases hfit2
+    · cases hres
+
+/-- the one-by-one phase. -/
+theorem phaseSingles_ok (ctx : PickCtx) {avail : List Nat} {n : Int} {a : Acc} (h : GoodA avail n a) :
+    ∀ res, phaseSingles ctx a = some res → Exact avail n res := by
+  intro res hres
+  unfold phaseSingles at hres
+  have hl5 : ListOK avail a (spreadCPUs ctx (freeCPUsAll ctx a true)) :=
+    listOK_perm (spreadCPUs_perm ctx _) (listOK_of_from h.2 (freeCPUsAll_ok ctx a h.2.nodup true))
+  have h5 := takeSingles_good ctx _ a h.1 hl5
+  have h5a := takeSingles_allocOK ctx (spreadCPUs ctx (freeCPUsAll ctx a true)) a h.2
+  generalize takeSingles ctx a (spreadCPUs ctx (freeCPUsAll ctx a true)) = r5 at hres h5 h5a
+  obtain ⟨done5, a5⟩ := r5
+  simp only [] at hres h5 h5a
+  split at hres
+  · rename_i hd
+    cases hres
+    exact good_done h5.1 (h5.2 hd)
+  · have hl6 : ListOK avail a5 (spreadCPUs ctx (freeCPUsAll ctx a5 false)) :=
+      listOK_perm (spreadCPUs_perm ctx _) (listOK_of_from h5a (freeCPUsAll_ok ctx a5 h5a.nodup false))
+    have h6 := takeSingles_good ctx _ a5 h5.1 hl6
+    generalize takeSingles ctx a5 (spreadCPUs ctx (freeCPUsAll ctx a5 false)) = r6 at hres h6
+    obtain ⟨done6, a6⟩ := r6
+    simp only [] at hres h6
+    split at hres
+    · rename_i hd
+      cases hres
+      exact good_done h6.1 (h6.2 hd)
+    · cases hres
+
+/-- the topology lists every CPU id once (`CPUDetails` is a map keyed by the CPU id). -/
+def TopoNodup (ctx : PickCtx) : Prop := (ctx.topo.map (·.cpu)).Nodup
+
+theorem newAcc_result (ctx : PickCtx) (avail : List Nat) (allocated : List CpuI) (need : Int) :
+    (newAcc ctx avail allocated need).result = [] ∧ (newAcc ctx avail allocated need).need = need := by
+  simp [newAcc]
+
+theorem newAcc_goodA (ctx : PickCtx) (htopo : TopoNodup ctx) (avail : List Nat) (allocated : List CpuI) (need : Int)
+    (hn : 0 ≤ need) : GoodA avail need (newAcc ctx avail allocated need) := by
+  obtain ⟨hr, hneed⟩ := newAcc_result ctx avail allocated need
+  refine ⟨⟨by simp [hr], by simp [hr], by simp [hr, hneed], by omega⟩, ?_⟩
+  have hbase : ((ctx.topo.filter (fun i => avail.contains i.cpu)).map (·.cpu)).Nodup :=
+    (List.filter_sublist.map _).nodup htopo
+  refine ⟨?_, ?_⟩
+  · simp only [newAcc]
+    split
+    · simpa [List.map_map, Function.comp_def] using hbase
+    · exact hbase
+  · intro i hi
+    rw [hr]
+    refine ⟨?_, by simp⟩
+    simp only [newAcc] at hi
+    split at hi
+    · obtain ⟨j, hj, rfl⟩ := List.mem_map.mp hi
+      simpa using (List.mem_filter.mp hj).2
+    · simpa using (List.mem_filter.mp hi).2
+
+/-- **take_exact**: a successful `takeCPUs` returns distinct CPUs, all from the set it was given, and exactly
+    the requested number — for EVERY topology with distinct CPU ids, free set, allocated-CPU table, bind policy,
+    exclusive policy, sharing limit, NUMA strategy and request. -/
+theorem takeCPUs_exact (ctx : PickCtx) (htopo : TopoNodup ctx) (full : Bool) (avail : List Nat)
+    (allocated : List CpuI) (n : Int) (S : List Nat) (h : takeCPUs ctx full avail allocated n = some S) :
+    S.Nodup ∧ (∀ c ∈ S, c ∈ avail) ∧ (0 ≤ n → (S.length : Int) = n) := by
+  rw [takeCPUs_eq] at h
+  simp only [] at h
+  by_cases hn : 0 ≤ n
+  · suffices hE : Exact avail n S from ⟨hE.2.1, hE.2.2, fun _ => hE.1⟩
+    have hA := newAcc_goodA ctx htopo avail allocated n hn
+    generalize newAcc ctx avail allocated n = a at h hA
+    split at h
+    · rename_i hs; cases h; exact good_done hA.1 hs
+    · split at h
+      · cases h
+      · have hr1 : (∀ res, (if (full || ctx.cpc == 1) = true then phaseFull ctx a else (none, a)).1 = some res →
+              Exact avail n res) ∧
+            GoodA avail n (if (full || ctx.cpc == 1) = true then phaseFull ctx a else (none, a)).2 := by
+          split
+          · exact phaseFull_ok ctx hA
+          · exact ⟨fun res hres => (by cases hres), hA⟩
+        generalize (if (full || ctx.cpc == 1) = true then phaseFull ctx a else (none, a)) = r1 at h hr1
+        obtain ⟨o, a'⟩ := r1
+        cases o with
+        | some res => simp only [] at h; cases h; exact hr1.1 _ rfl
+        | none =>
+          simp only [] at h
+          have hA' : GoodA avail n a' := hr1.2
+          split at h
+          · rename_i res hres
+            cases h
+            split at hres
+            · exact phaseSpread_ok ctx hA' _ hres
+            · cases hres
+          · exact phaseSingles_ok ctx hA' _ h
+  · have hs : (newAcc ctx avail allocated n).isSatisfied = true := by
+      simp only [Acc.isSatisfied, (newAcc_result ctx avail allocated n).2, decide_eq_true_eq]; omega
+    rw [if_pos hs] at h
+    cases h
+    rw [(newAcc_result ctx avail allocated n).1]
+    exact ⟨List.nodup_nil, by simp, fun h0 => absurd h0 hn⟩
+
+theorem not_contains_mem {l : List Nat} {c : Nat} (h : (!l.contains c) = true) : c ∉ l := by simpa using h
+
+/-- **preferred_exact**: the same contract for `takePreferredCPUs`, with any set of preferred (restored) CPUs. -/
+theorem takePreferredCPUs_exact (ctx : PickCtx) (htopo : TopoNodup ctx) (full : Bool) (avail preferred : List Nat)
+    (allocated : List CpuI) (n : Int) (S : List Nat)
+    (h : takePreferredCPUs ctx full avail preferred allocated n = some S) :
+    S.Nodup ∧ (∀ c ∈ S, c ∈ avail) ∧ (0 ≤ n → (S.length : Int) = n) := by
+  unfold takePreferredCPUs at h
+  simp only [] at h
+  split at h
+  · cases h
+  · rename_i res need' avail' hstep
+    -- what step 1 established
+    have h1 : res.Nodup ∧ (∀ c ∈ res, c ∈ avail ∧ c ∈ preferred) ∧
+        (∀ c ∈ avail', c ∈ avail ∧ (c ∈ preferred → res = [])) ∧ (∀ c ∈ avail', c ∉ res) ∧
+        need' = n - res.length ∧ (0 ≤ n → (res.length : Int) ≤ n) := by
+      split at hstep
+      · split at hstep
+        · cases hstep
+        · rename_i r hr
+          simp only [Option.some.injEq, Prod.mk.injEq] at hstep
+          obtain ⟨e1, e2, e3⟩ := hstep
+          subst e1 e2 e3
+          have ht := takeCPUs_exact ctx htopo full _ allocated _ r hr
+          have hsub : ∀ c ∈ r, c ∈ avail ∧ c ∈ preferred := fun c hc => by
+            have := ht.2.1 c hc
+            simpa using List.mem_filter.mp this
+          refine ⟨ht.1, hsub, fun c hc => ?_, fun c hc hcr => ?_, rfl, fun h0 => ?_⟩
+          · have := List.mem_filter.mp hc
+            refine ⟨this.1, fun hp => ?_⟩
+            have hcp : c ∈ avail.filter (fun c => preferred.contains c) := List.mem_filter.mpr ⟨this.1, by simpa using hp⟩
+            exact absurd hcp (not_contains_mem this.2)
+          · exact absurd (ht.2.1 c hcr) (not_contains_mem (List.mem_filter.mp hc).2)
+          · have := ht.2.2
+            split at this
+            · have := this (by omega); omega
+            · have := this h0; omega
+      · cases hstep
+        exact ⟨List.nodup_nil, by simp, fun c hc => ⟨hc, fun _ => rfl⟩, by simp, by simp, fun h0 => by simpa using h0⟩
+    obtain ⟨hnd, hsub, hav, hdis, hneed, hle⟩ := h1
+    split at h
+    · split at h
+      · cases h
+      · rename_i cpus hc
+        cases h
+        have ht := takeCPUs_exact ctx htopo full _ allocated _ cpus hc
+        have hfil : cpus.filter (fun c => !res.contains c) = cpus := by
+          apply List.filter_eq_self.mpr
+          intro c hcm
+          have := hdis c (ht.2.1 c hcm)
+          simpa using this
+        rw [hfil]
+        refine ⟨?_, ?_, fun h0 => ?_⟩
+        · rw [List.nodup_append]
+          exact ⟨hnd, ht.1, fun x hx y hy hxy => hdis y (ht.2.1 y hy) (hxy ▸ hx)⟩
+        · intro c hcm
+          rcases List.mem_append.mp hcm with h1 | h1
+          · exact (hsub c h1).1
+          · exact (hav c (ht.2.1 c h1)).1
+        · have := ht.2.2 (by omega)
+          rw [List.length_append]; push_cast; omega
+    · cases h
+      rename_i hnpos
+      refine ⟨hnd, fun c hc => (hsub c hc).1, fun h0 => ?_⟩
+      have := hle h0
+      omega
 
 end KoordVerif.C06
